@@ -160,3 +160,11 @@ func (d *VerifDown) CopyFrom(o *VerifDown) {
 
 // RateState returns the private state of the down track's rate estimator.
 func (d *VerifDown) RateState(now uint64) string { return d.T.rate.VerifState(now) }
+
+// RateAccumulate records n packets of the given size in the up track's rate
+// estimator (as readLoop does for every packet read).
+func (u *VerifUp) RateAccumulate(n int, size uint32) {
+	for i := 0; i < n; i++ {
+		u.T.rate.Accumulate(size)
+	}
+}
